@@ -267,6 +267,44 @@ type c14Case struct {
 	Prev []c14Vals `json:"earlier_requests_on_the_same_instance,omitempty"`
 	// Twin: the values of the other route's handler (both handlers are closures of one function literal)
 	Twin *c14Vals `json:"values_of_the_sibling_route,omitempty"`
+	// PrevShape: the earlier request went to another route of the same instance, whose handler has this shape
+	PrevShape string `json:"shape_of_the_earlier_request_on_another_route,omitempty"`
+}
+
+// c14Cross: one instance with two routes whose handlers have shapes sa and sb: a request to the first, then
+// one to the second, then the first again; every response is what the table says of its own values.
+func c14Cross(sa string, va c14Vals, sb string, vb c14Vals) (bad, kind string) {
+	wa := &c14World{f: flamego.NewWithLogger(io.Discard), v: va}
+	wb := &c14World{f: wa.f, v: vb}
+	next := func(c flamego.Context) { c.ResponseWriter().WriteHeader(299) }
+	wa.f.Get("/a", wa.handler(sa), next)
+	wa.f.Get("/b", wb.handler(sb), next)
+	for i, w := range []*c14World{wa, wb, wa} {
+		path, shape := "/a", sa
+		if w == wb {
+			path, shape = "/b", sb
+		}
+		spy := &c01Spy{hdr: http.Header{}}
+		var pan interface{}
+		func() {
+			defer func() { pan = recover() }()
+			wa.f.ServeHTTP(spy, newReq("GET", path))
+		}()
+		if pan != nil {
+			return fmt.Sprintf("ServeHTTP panicked: %v", pan), "panic"
+		}
+		want := c14Table(shape, w.v, w.err(), w.bytes())
+		if !want.Defined {
+			continue
+		}
+		if want.Wrote && (spy.code != want.Status || spy.body.String() != want.Body) {
+			return fmt.Sprintf("request %d (%s, shape %s): status %d body %q, the table says status %d body %q", i+1, path, shape, spy.code, trunc(spy.body.String()), want.Status, trunc(want.Body)), "wrong-response/after-another-shape"
+		}
+		if !want.Wrote && spy.code != 299 {
+			return fmt.Sprintf("request %d (%s, shape %s): status %d body %q although the handler returned nothing to write", i+1, path, shape, spy.code, trunc(spy.body.String())), "empty-result-wrote/after-another-shape"
+		}
+	}
+	return "", ""
 }
 
 // c14Twins: two routes whose handlers are two closures of ONE function literal (a handler factory called in
@@ -483,7 +521,7 @@ func c14Run(r *core.Run) {
 	if r.Thorough() {
 		r.SetBudget(10 * time.Minute)
 	}
-	r.Rule = "engine E: every supported return shape x every value (empty, nil, all 256 single bytes, 1 KiB, every status 100..999, nil / errors.New / struct / pointer-receiver errors, messages with percent signs and verbs, nil pointers) x position {first of two handlers, last before the action, application middleware} x {default table, custom ReturnHandler at application scope, at request scope, mapped late}; all values served in sequence on one instance, plus every two-request history (one value of each outcome class, then every value) on a fresh instance; oracle = the statement's table, 'wrote nothing' observed as 'the next handler ran'; non-trivial = value that is nil/empty/zero, an error, or a non-200 status"
+	r.Rule = "engine E: every supported return shape x every value (empty, nil, all 256 single bytes, 1 KiB, every status 100..999, nil / errors.New / struct / pointer-receiver errors, messages with percent signs and verbs, nil pointers) x position {first of two handlers, last before the action, application middleware} x {default table, custom ReturnHandler at application scope, at request scope, mapped late}; all values served in sequence on one instance, plus every two-request history (one value of each outcome class, then every value) on a fresh instance, and every cross-shape history (one value of each outcome class of every shape on one route, then one of each class of this shape on another route of the same instance, then the first again); oracle = the statement's table, 'wrote nothing' observed as 'the next handler ran'; non-trivial = value that is nil/empty/zero, an error, or a non-200 status"
 	r.Assumptions = []string{"a non-nil pointer to an empty value is not covered by the statement and is asserted neither way (counted)", "status codes outside 100..999 (what net/http accepts) are outside the quantifier"}
 	positions := []string{"first-of-two", "last", "middleware"}
 	customs := []string{"", "app", "request", "request-late", "app-late"}
@@ -570,6 +608,28 @@ func c14Run(r *core.Run) {
 					}
 				}
 			}
+			if j.pos == "last" {
+				// histories across shapes: a request to a route of every other shape first
+				repsB := c14Reps(j.shape, vals, false)
+				for _, sa := range c14Shapes {
+					for _, va := range c14Reps(sa, c14Values(sa, false), false) {
+						for _, vb := range repsB {
+							l.Evals++
+							l.Transitions += 3
+							l.Traces++
+							l.NonTrivial++
+							l.States++
+							l.Extra["cross_shape_histories"]++
+							if bad, kind := c14Cross(sa, va, j.shape, vb); bad != "" {
+								l.Class("mismatch")
+								l.Violate(kind+"/"+j.shape, bad+fmt.Sprintf(" [values %+v (shape %s) then %+v (shape %s)]", va, sa, vb, j.shape), c14Case{Shape: j.shape, Position: "cross-shape", V: vb, PrevShape: sa, Prev: []c14Vals{va}})
+							} else {
+								l.Class("after-a-request-of-another-shape")
+							}
+						}
+					}
+				}
+			}
 			reps := c14Reps(j.shape, vals, r.Thorough())
 			for _, prev := range reps {
 				for _, v := range vals {
@@ -609,6 +669,10 @@ func c14Replay(raw json.RawMessage) (bool, string) {
 	}
 	if c.Twin != nil {
 		bad, _ := c14Twins(c.Shape, c.V, *c.Twin)
+		return bad != "", bad
+	}
+	if c.PrevShape != "" && len(c.Prev) == 1 {
+		bad, _ := c14Cross(c.PrevShape, c.Prev[0], c.Shape, c.V)
 		return bad != "", bad
 	}
 	w := c14Build(c.Shape, c.Position, c.Custom)
